@@ -32,7 +32,7 @@ def encoder_entry_points(F):
     return roots, present
 
 
-@rule('DET-EFFECT', ['C13'], floor=3, thorough_configs=('std-noopt', 'nostd-opt'))
+@rule('DET-EFFECT', ['C13'], floor={'def': 3, 'std-noopt': 2, 'nostd-opt': 2}, thorough_configs=('std-noopt', 'nostd-opt'))
 def det_effect(ctx):
     """Nothing reachable from the writers (constructors, write/flush/finish, writer workers) calls a
     nondeterminism source (random hashing, clocks, thread ids, env, pointer-to-integer) or reads
